@@ -159,6 +159,11 @@ def run_shard(params, rec):
                     continue
                 rec.count("family:" + name)
                 mon.guarded(mon.binary, name, objs[ia], objs[ib])
+                if len(rec.samples) < 4 and (ia + ib) % 37 == 5 and objs[ia][0] and objs[ib][0]:
+                    rec.sample(dict(family=name, a=[list(x) for x in objs[ia][0]],
+                                    b=[list(x) for x in objs[ib][0]],
+                                    union=str(objs[ia][1] + objs[ib][1]),
+                                    intersection=str(objs[ia][1] & objs[ib][1])))
 
 
 class Monitor(object):
